@@ -16,3 +16,7 @@ package checker
 
 //@ func checker.dereference
 //@   pure
+
+//@ func checker.visitor.ClosureNode
+//@   property C04
+//@   requires v != nil && node != nil
